@@ -130,7 +130,9 @@ def map_case(seed, threads=None, thick=False, force=None):
         u, v, n = documented_basis(direction)
     else:
         nv = rng.normal(size=3)
-        if rng.random() < 0.3:
+        if "normal" in f:
+            nv = np.array(f["normal"], dtype=float)
+        elif rng.random() < 0.3:
             nv = np.round(nv * 2)
             if not nv.any():
                 nv = np.array([1.0, 1.0, 0.0])
@@ -386,6 +388,18 @@ def sweep_c03(tier, seed):
             r = {"what": "exception %r" % (e,), "input": {"seed": seed * 7919 + s}}
         if r:
             viol.append({"name": "C03.native.map.small_window", "input": r["input"], "observed": r["what"]})
+            break
+    # oblique planes at fine resolution, cells spanning many pixels: the kernel's per-cell pixel box must cover the cell
+    normals = [(1, -1, 0), (1, 0, 1), (1, 2, 3), (0.3, -0.2, 1), (1, 1, 1), (-2, 1, 0.5)]
+    for s in range(len(normals) if tier == "quick" else 60):
+        cases += 1
+        try:
+            r = map_case(seed * 97 + s, threads=(16, 1)[s % 2], force={"ndim": 3, "dkind": "vector", "normal": normals[s % len(normals)], "res": 48,
+                                                                      "levels": 1 + s % 2, "frac": 0.9, "use_dx": True, "kinds": ("scalar",)})
+        except Exception as e:
+            r = {"what": "exception %r" % (e,), "input": {"seed": seed * 97 + s}}
+        if r:
+            viol.append({"name": "C03.native.map.oblique_fine", "input": r["input"], "observed": r["what"]})
             break
     # tall / wide windows (dy != dx): the window pre-selection must use the larger extent
     for s in range(n // 4):
@@ -685,7 +699,7 @@ def frame_case(seed, func=None):
 
     numba.set_num_threads(1)  # schedule dependence is C03's / C05's business; here: frames and repeatability of one schedule
     rng = np.random.default_rng(seed)
-    func = func or ["map", "map_thick", "histogram2d", "histogram1d", "scatter", "plot", "map_scatter"][seed % 7]
+    func = func or ["map", "map_thick", "histogram2d", "histogram1d", "scatter", "plot", "map_scatter", "histogram2d_log", "plots_log"][seed % 9]
     ndim = 3
     C, S = amr_mesh(rng, ndim, 2, n0=2)
     layers, raw, pos, dxa = build_layers(C, S, "cm", rng, ("scalar", "vector"))
@@ -717,6 +731,19 @@ def frame_case(seed, func=None):
         args = (a, b, Layer(w, operation="mean", vmin=0.5), Layer(layers[0].data))
         kwargs = {"resolution": 8, "norm": "log", "xmin": 1.1 * units("g"), "cmap": "magma"}
         f = osyris.histogram2d
+    elif func == "histogram2d_log":
+        # log axes; x as a 1-component Vector (its norm is the component itself), y as an Array
+        args = (Vector(a, name="va"), b, Layer(w))
+        kwargs = {"resolution": 8, ["logx", "logy", "loglog"][(seed // 9) % 3]: True}
+        f = osyris.histogram2d
+    elif func == "plots_log":
+        which = (seed // 9) % 3
+        if which == 0:
+            args, kwargs, f = (Layer(a, weights=w),), {"bins": 6, "loglog": True}, osyris.histogram1d
+        elif which == 1:
+            args, kwargs, f = (a, b), {"color": w, "loglog": True}, osyris.scatter
+        else:
+            args, kwargs, f = (b, a), {"loglog": True}, osyris.plot
     elif func == "histogram1d":
         edges = np.linspace(1, 2, 6)
         args = (Layer(a, bins=edges, weights=w, color="r"), Layer(Array(rng.uniform(1, 2, N), unit="g", name="a2")))
@@ -821,6 +848,14 @@ def sweep_c19(tier, seed):
         if r:
             name = "C19.native.frames.%s" % r["input"].get("function", "call")
             viol.setdefault(name, {"name": name, "input": r["input"], "observed": r["what"]})
+    for s in range(3):
+        cases += 1
+        try:
+            r = falsy_option_case(s)
+        except Exception as e:
+            r = {"what": "exception %r" % (e,), "input": {"seed": s}}
+        if r:
+            viol.setdefault("C19.native.options.falsy_value", {"name": "C19.native.options.falsy_value", "input": r["input"], "observed": r["what"]})
     for s in range(4 * n):
         cases += 1
         try:
@@ -843,8 +878,10 @@ def replay_frames(case, model, rec):
     pick = funcs[0]
     if pick == "map":
         cand = ["map", "map_thick", "map_scatter"]
+    elif pick == "histogram2d":
+        cand = ["histogram2d", "histogram2d_log"]
     else:
-        cand = [pick]
+        cand = [pick, "plots_log"]
     for fn in cand:
         r = _replay(lambda s, fn=fn: frame_case(50 + s, func=fn), 6)
         if r["reproduced"]:
@@ -852,5 +889,28 @@ def replay_frames(case, model, rec):
     return r
 
 
+def falsy_option_case(seed):
+    """an option set to a falsy value on the layer (0, 0.0, '') still wins over the call-level value"""
+    import numpy as np
+    import osyris
+    from osyris import Array
+    from osyris.core import Layer
+
+    rng = np.random.default_rng(seed)
+    N = 40
+    x = Array(rng.uniform(0, 1, N), unit="cm", name="x")
+    y = Array(rng.uniform(0, 1, N), unit="s", name="y")
+    opt, val, call = [("vmin", 0, 0.5), ("vmax", 0.0, 3.0), ("vmin", 0.0, 2.0)][seed % 3]
+    p = osyris.histogram2d(x, y, Layer(Array(rng.uniform(1, 2, N), unit="g", name="w"), **{opt: val}), resolution=3, plot=False, **{opt: call})
+    got = getattr(p.layers[0]["params"]["norm"], opt)
+    if got != val:
+        return {"what": "Layer(%s=%r) with %s=%r on the call: the normaliser got %r" % (opt, val, opt, call, got), "input": {"option": opt, "layer": val,
+                                                                                                                             "call": call}}
+    return None
+
+
 def replay_options(case, model, rec):
+    r = _replay(falsy_option_case, 3)
+    if r["reproduced"]:
+        return r
     return _replay(lambda s: option_case(100 + s), 80)
